@@ -50,6 +50,40 @@ type Report struct {
 	Verbose     bool
 	start       time.Time
 	seen        map[string]bool
+	// Alias, when set, runs a borrowed rule set: obligations, rule texts and floors of the rules it maps are recorded
+	// under the mapped id, everything else the borrowed rule set emits is dropped (see Borrow).
+	alias map[string]string
+}
+
+// Borrow runs f - the rule set of another property - and keeps only the rules named in alias, recorded under this
+// property's own rule ids (alias: foreign id -> own id). A clause that is a necessary condition of two properties is
+// decided by one piece of analysis and reported by both checks.
+func (r *Report) Borrow(alias map[string]string, f func()) {
+	saveND := r.NotDecided
+	saveAs := r.Assumptions
+	outer := r.alias
+	if outer != nil {
+		// a borrowed rule set that borrows itself: keep what the outer borrower asked for
+		composed := map[string]string{}
+		for k, v := range alias {
+			if w, ok := outer[v]; ok {
+				composed[k] = w
+			}
+		}
+		alias = composed
+	}
+	r.alias = alias
+	defer func() { r.alias = outer; r.NotDecided = saveND; r.Assumptions = saveAs }()
+	f()
+}
+
+// mapRule: the id a rule is recorded under; ok=false when it is dropped.
+func (r *Report) mapRule(id string) (string, bool) {
+	if r.alias == nil {
+		return id, true
+	}
+	m, ok := r.alias[id]
+	return m, ok
 }
 
 func NewReport(prop, tier, verifDir string, seed int) *Report {
@@ -59,6 +93,14 @@ func NewReport(prop, tier, verifDir string, seed int) *Report {
 
 // Rule registers the text of a rule (goes into evidence.explanation).
 func (r *Report) Rule(id, text string) {
+	foreign := id
+	id, keep := r.mapRule(id)
+	if !keep {
+		return
+	}
+	if foreign != id {
+		text = "(shared with " + foreign + ") " + text
+	}
 	if _, ok := r.RuleText[id]; !ok {
 		r.ruleOrder = append(r.ruleOrder, id)
 	}
@@ -66,6 +108,10 @@ func (r *Report) Rule(id, text string) {
 }
 
 func (r *Report) add(rule, key, pos string, st Status, nontrivial bool, msg string) *Obl {
+	rule, keep := r.mapRule(rule)
+	if !keep {
+		return &Obl{}
+	}
 	k := rule + "\x00" + key
 	if r.seen[k] {
 		// keep keys unique: a second obligation on the same construct gets a suffix
@@ -112,6 +158,19 @@ func (r *Report) Check(ok bool, rule, key, pos, witness, what string) {
 
 // Floor fails the run when a rule saw fewer instances than confirmed by hand.
 func (r *Report) Floor(rule, what string, got, min int) {
+	if m, keep := r.mapRule(rule); !keep {
+		return
+	} else if m != rule {
+		// recorded under the own id; add passes the already mapped id through the alias table only once
+		r.Counters[m+" "+what] = got
+		if got < min {
+			save := r.alias
+			r.alias = nil
+			r.Unknown(m, "floor:"+what, "", fmt.Sprintf("rule instance count %d below the confirmed floor %d (%s): the rule may be passing vacuously or an anchor moved", got, min, what))
+			r.alias = save
+		}
+		return
+	}
 	r.Counters[rule+" "+what] = got
 	if got < min {
 		r.Unknown(rule, "floor:"+what, "", fmt.Sprintf("rule instance count %d below the confirmed floor %d (%s): the rule may be passing vacuously or an anchor moved", got, min, what))
@@ -123,7 +182,12 @@ func (r *Report) Anchor(rule, spec string) {
 	r.Unknown(rule, "anchor:"+spec, "", "unresolved anchor: "+spec+" not found in the loaded program; the rule table must be updated deliberately")
 }
 
-func (r *Report) Count(name string, n int) { r.Counters[name] += n }
+func (r *Report) Count(name string, n int) {
+	if r.alias != nil {
+		return
+	}
+	r.Counters[name] += n
+}
 
 type knownFinding struct {
 	prop, rule, key, text string
